@@ -32,8 +32,24 @@ def group_comp_family(seed, n, budget):
         for it in [l for f in d["named"] for l in D.field_leaves(f)]:
             if it["kind"] == "arg" and it["vt"] != "int" and rnd.random() < 0.5:
                 it["completer"] = [f"cv{it['id']}a", f"cv{it['id']}b"]
-            if rnd.random() < 0.2:
+            if rnd.random() < 0.2 and not it["id"].startswith("h"):         # (a hidden first item of an adjacent group is a usage error)
                 it["hidden"] = True
+    return fam
+
+
+def tree_comp_family(seed, n, budget):
+    rnd = random.Random(seed)
+    fam = D.tree_group_family(seed, n, maxlen=3, budget=budget, kinds=("alt", "adj", "acmd"))
+    for d in fam:
+        d["alpha"]["clusters"] = False
+        d["alpha"]["spells"] = ["sep"]
+        for c in d["tail"]["cmds"]:
+            c["level"]["alpha"]["spells"] = ["sep"]
+            for it in [l for f in c["level"]["named"] for l in D.field_leaves(f)]:
+                if it["kind"] == "arg" and it["vt"] != "int" and rnd.random() < 0.5:
+                    it["completer"] = [f"cv{it['id']}a", f"cv{it['id']}b"]
+                if rnd.random() < 0.2 and not it["id"].startswith("h"):     # a hidden first item of an adjacent group is a usage error
+                    it["hidden"] = True
     return fam
 
 
@@ -171,9 +187,21 @@ def run(v):
     gsumm = run_replay(hbin, gpath, gcases, gmm)
     for m in read_ndjson(gmm):
         v.report(sig(m), {k: m[k] for k in m if k != "def_full"} | {"def": m.get("def_full", m.get("def"))})
+    # the same inside ordinary subcommands (TreeLine.tla)
+    tfam = tree_comp_family(SEED + 3140, 10 if q else 40, 1200 if q else 8000)
+    tpath = os.path.join(WORK, f"C14-{v.tier}-tdefs.ndjson")
+    D.write_ndjson(tpath, tfam)
+    traw, tmeta = cached_tlc_cases("C14-tcomplete", "MC_TreeLine", "MC_TreeLine_complete.cfg", tpath,
+                                   extra_files=[os.path.join(TLA, "TreeLine.tla")])
+    tcases = os.path.join(WORK, f"C14-{v.tier}-tcases.ndjson")
+    tn = expand(traw, tcases)
+    tmm = os.path.join(WORK, f"C14-{v.tier}-tmm.ndjson")
+    tsumm = run_replay(hbin, tpath, tcases, tmm)
+    for m in read_ndjson(tmm):
+        v.report(sig(m), {k: m[k] for k in m if k != "def_full"} | {"def": m.get("def_full", m.get("def"))})
     tv = driver(v, hbin, comp_family(SEED + 1140, 30 if q else 120, maxlen=2, budget=10**9), 12000 if q else 200000)
-    cov = {"driver_requests_validated_by_tlc": tv, "states": meta["distinct"], "transitions": meta["states"], "traces_validated_against_impl": summ["cases"] + gsumm["cases"],
-           "definitions": len(fam) + len(gfam), "completion_requests": n + gn, "group_states": gmeta["distinct"],
+    cov = {"driver_requests_validated_by_tlc": tv, "states": meta["distinct"], "transitions": meta["states"], "traces_validated_against_impl": summ["cases"] + gsumm["cases"] + tsumm["cases"],
+           "definitions": len(fam) + len(gfam) + len(tfam), "completion_requests": n + gn + tn, "group_states": gmeta["distinct"], "tree_states": tmeta["distinct"], "tree_completion_requests": tn,
            "group_completion_requests": gn, "impl_classes": summ["classes"],
            "distinct_nontrivial": n,
            "samples": [{"def": c["def"], "line": [i["txt"] for i in c["line"]], "partial": c["partial"], "must": c["expect"]["must"],
